@@ -503,6 +503,14 @@ func (c *SpecCtx) evalBin(x *EBin) (Val, types.Type) {
 			return app(SBool, "fp.gt", a, b), boolT
 		case ">=":
 			return app(SBool, "fp.geq", a, b), boolT
+		case "+":
+			return app(a.Sort, "fp.add RNE", a, b), lt
+		case "-":
+			return app(a.Sort, "fp.sub RNE", a, b), lt
+		case "*":
+			return app(a.Sort, "fp.mul RNE", a, b), lt
+		case "/":
+			return app(a.Sort, "fp.div RNE", a, b), lt
 		}
 		c.fail("float operator %s", x.Op)
 	}
@@ -664,6 +672,61 @@ func (c *SpecCtx) evalCall(x *ECall) (Val, types.Type) {
 		fn := "|str-of " + typeKey(sl.Elem()) + "|"
 		e.declFun(fn, []Sort{cp.Sort, SInt, SInt, SInt}, SStr)
 		return app(SStr, fn, e.lookup(c.st, cp), sv.Base, sv.Off, sv.Len), types.Typ[types.String]
+	case "lastarg":
+		// lastarg("callee[#k]", i): the i-th argument passed at the most recent call of callee
+		if c.f == nil {
+			c.fail("lastarg outside a function body")
+		}
+		key, ok := x.Args[0].(*EStr)
+		n, ok2 := x.Args[1].(*ENum)
+		if !ok || !ok2 {
+			c.fail("lastarg(\"callee\", i)")
+		}
+		idx := 0
+		fmt.Sscanf(n.V, "%d", &idx)
+		lc, ok := c.f.lastRes[key.V]
+		at := c.f.blk
+		if hb, ok := c.hdrBlock.(*ssa.BasicBlock); ok && hb != nil {
+			at = hb
+		}
+		inGate := ok && c.gateTop != nil && lc.blk != nil && c.gateTop.Dominates(lc.blk) && cfgReaches(lc.blk, c.gateB)
+		if !ok || (at != nil && lc.blk != nil && !lc.blk.Dominates(at) && !inGate) {
+			// the call did not (necessarily) happen on the way here: its argument is arbitrary
+			var at types.Type
+			for _, b := range c.f.fn.Blocks {
+				for _, ins := range b.Instrs {
+					if call, ok := ins.(*ssa.Call); ok && calleeKey(&call.Call) == strings.SplitN(key.V, "#", 2)[0] && idx < len(call.Call.Args) {
+						at = call.Call.Args[idx].Type()
+					}
+				}
+			}
+			if at == nil {
+				c.fail("lastarg: no call site of %s in this function", key.V)
+			}
+			return e.freshVal(at, "nocall.arg", c.st.Alloc), at
+		}
+		if idx >= len(lc.args) || lc.args[idx] == nil {
+			c.fail("lastarg: %s has no usable argument %d", key.V, idx)
+		}
+		return lc.args[idx], lc.argT[idx]
+	case "same":
+		// same(a, b): identical values (for floats: bitwise-identical up to NaN payload, unlike ==)
+		a, _ := c.eval(x.Args[0])
+		b, _ := c.eval(x.Args[1])
+		at, ok1 := a.(Term)
+		bt, ok2 := b.(Term)
+		if !ok1 || !ok2 || at.Sort != bt.Sort {
+			c.fail("same() of composite or differently typed values")
+		}
+		return tEq(at, bt), boolT
+	case "tofloat":
+		// tofloat(x): the Go conversion float64(x) of an integer
+		v, _ := c.eval(x.Args[0])
+		tv, ok := v.(Term)
+		if !ok || tv.Sort != SInt {
+			c.fail("tofloat of a non-integer")
+		}
+		return Term{fmt.Sprintf("((_ to_fp 11 53) RNE (to_real %s))", tv.S), SF64}, types.Typ[types.Float64]
 	case "lastresult", "laststr":
 		// the value most recently returned by the named callee on the way here
 		if c.f == nil {
@@ -712,6 +775,35 @@ func (c *SpecCtx) evalCall(x *ECall) (Val, types.Type) {
 			return tv[idx], rs.At(idx).Type()
 		}
 		return lc.res, rs.At(0).Type()
+	case "wrap":
+		// wrap(x, "int"): x reduced into the range of the named Go integer type (Go's modular arithmetic)
+		v, _ := c.eval(x.Args[0])
+		id, ok := x.Args[1].(*EStr)
+		tv, ok2 := v.(Term)
+		if !ok || !ok2 || tv.Sort != SInt {
+			c.fail("wrap(x, \"inttype\")")
+		}
+		t := c.resolveType(id.V)
+		b, ok := t.Underlying().(*types.Basic)
+		if !ok {
+			c.fail("wrap: not an integer type")
+		}
+		return wrapTerm(tv, b), t
+	case "toint":
+		// toint(x): the Go conversion int(x) of a float value (same function the code's conversion uses)
+		v, t := c.eval(x.Args[0])
+		tv, ok := v.(Term)
+		if !ok || (tv.Sort != SF64 && tv.Sort != SF32) {
+			c.fail("toint of a non-float")
+		}
+		from := types.Type(types.Typ[types.Float64])
+		if tv.Sort == SF32 {
+			from = types.Typ[types.Float32]
+		}
+		_ = t
+		fn := "|f2i " + typeKey(from) + " " + typeKey(types.Typ[types.Int]) + "|"
+		e.declFun(fn, []Sort{tv.Sort}, SInt)
+		return app(SInt, fn, tv), mathInt
 	case "zero":
 		// zero("T"): the zero value of type T
 		id, ok := x.Args[0].(*EStr)
